@@ -17,6 +17,8 @@ import (
 	"golang.org/x/tools/go/packages"
 	"golang.org/x/tools/go/ssa"
 	"golang.org/x/tools/go/ssa/ssautil"
+
+	"glbverif/checker/sx"
 )
 
 const ModPath = "github.com/whoisnian/glb"
@@ -34,6 +36,7 @@ type Prog struct {
 	modFuncs []*ssa.Function
 	cg       *callgraph.Graph
 	funcDecl map[*ssa.Function]*ast.FuncDecl
+	inl      map[string]*ssa.Function
 }
 
 // Load type-checks the module rooted at dir for the given GOOS/GOARCH ("" = host).
@@ -224,6 +227,9 @@ func (p *Prog) Callees(call ssa.CallInstruction) []*ssa.Function {
 	if f := call.Common().StaticCallee(); f != nil {
 		return []*ssa.Function{f}
 	}
+	if o, ok := sx.OrigInstr(call).(ssa.CallInstruction); ok {
+		call = o // an instruction of an inlined copy: the call graph knows the source instruction
+	}
 	cg := p.CallGraph()
 	n := cg.Nodes[call.Parent()]
 	var out []*ssa.Function
@@ -272,4 +278,57 @@ func (p *Prog) Stats() (pkgs, funcs, blocks, instrs int) {
 		}
 	}
 	return
+}
+
+// Inl returns fn with the bodies of its same-package callees expanded (see
+// sx.Inline): the view on which path rules are decided, so that moving part of
+// a function into a helper of the same package does not change the verdict.
+// Functions in keep stay calls (the rule speaks about the call itself).
+func (p *Prog) Inl(fn *ssa.Function, keep ...*ssa.Function) *ssa.Function {
+	if fn == nil || fn.Blocks == nil {
+		return fn
+	}
+	key := fn.String()
+	for _, k := range keep {
+		if k != nil {
+			key += "|" + k.String()
+		}
+	}
+	if p.inl == nil {
+		p.inl = map[string]*ssa.Function{}
+	}
+	if r, ok := p.inl[key]; ok {
+		return r
+	}
+	kept := map[*ssa.Function]bool{}
+	for _, k := range keep {
+		kept[k] = true
+	}
+	rootPkg := func(f *ssa.Function) *ssa.Package {
+		for f.Parent() != nil {
+			f = f.Parent()
+		}
+		if f.Pkg == nil && f.Origin() != nil {
+			return f.Origin().Pkg
+		}
+		return f.Pkg
+	}
+	res := sx.Inline(fn, func(caller, callee *ssa.Function, depth int) bool {
+		if depth > 4 || kept[callee] || !p.InModule(callee) || rootPkg(callee) != rootPkg(caller) {
+			return false
+		}
+		n := 0
+		for _, b := range callee.Blocks {
+			n += len(b.Instrs)
+		}
+		return n <= 600
+	})
+	if why := sx.Verify(res.Fn); why != "" {
+		if os.Getenv("GLB_INLINE_DUMP") != "" {
+			res.Fn.WriteTo(os.Stderr)
+		}
+		panic("inlined copy of " + fn.String() + " is malformed: " + why)
+	}
+	p.inl[key] = res.Fn
+	return res.Fn
 }
